@@ -10,7 +10,7 @@ KANI_DIR = os.path.join(common.VERIF, 'kani')
 
 GROUPS = {
     'req': ['req_reversed_involution', 'req_through_scale_all_doubles', 'req_monotonicity_lemma', 'cmp_reversal_consistent', 'cmp_holds_matches_order', 'req_reach_witness'],
-    'ival': ['ival_add', 'ival_sub', 'ival_neg_abs', 'ival_scale', 'ival_div_by', 'ival_sums_never_nan', 'ival_add_exact', 'ival_scale_exact', 'ival_div_exact', 'ival_intersection', 'ival_from_variable_type', 'ival_required_bounds', 'ival_reach_witness'],
+    'ival': ['ival_add', 'ival_sub', 'ival_neg_abs', 'ival_scale', 'ival_div_by', 'ival_sums_never_nan', 'ival_intersection', 'ival_from_variable_type', 'ival_required_bounds', 'ival_reach_witness'],
     'stdk': ['fpred_consistent_order', 'stdk_equality_constraint_normalised', 'stdk_reach_witness'],
     'tab': ['tab_step_2x3'],
 }
